@@ -149,7 +149,8 @@ func (vc *VC) instr(fr *Frame, st *State, ins ssa.Instruction) {
 		switch u := t.X.Type().Underlying().(type) {
 		case *types.Slice:
 			vc.boundsObl(fr, st, i, SLen(x), t.Pos())
-			ep := vc.defVal(fr, t, SliceElemPtr(x, i))
+			_, isStruct := u.Elem().Underlying().(*types.Struct)
+			ep := vc.defVal(fr, t, SliceElemPtrT(x, i, isStruct))
 			vc.q.Assert(vc.tyofAssume(ep, u.Elem()))
 		case *types.Pointer:
 			arr := u.Elem().Underlying().(*types.Array)
@@ -747,6 +748,7 @@ func (vc *VC) lookup(fr *Frame, st *State, t *ssa.Lookup) {
 		dom := vc.mapDom(st, u, x)
 		val := vc.mapVal(st, u, x)
 		has := vc.q.Define(fr.prefix+"$"+t.Name()+"_has", And(Not(Eq(x, NilP)), Select(dom, k)))
+		vc.q.Assert(Implies(has, Lt(IntLit(0), vc.mapLen(st, x)))) // a map with a key is not empty
 		v := Ite(has, Select(val, k), vc.zero(u.Elem()))
 		v = vc.q.Define(fr.prefix+"$"+t.Name(), v)
 		vc.q.Assert(Implies(st.reach, vc.wfAssume(st, v, u.Elem(), 0)))
